@@ -149,4 +149,308 @@ def allRunsOld (I nT T j : Nat) : Nat :=
   (((List.range nT).filter (fun t => inputOf (nT / I) I t == j)).map
     (runsOfOld (nT / I) (nT % I) I T)).sum
 
+
+/-! ## Part 2: `read_range_input`, `read_bias_ratios`, `get_direction_from_bias_ratio`,
+    `generate_input` and the read-back through `get_simulations` (property C19).
+
+Floats are modelled by exact rationals (core `Rat`); decimal literals are parsed exactly.
+Supported literal syntax (what the harness feeds): optional surrounding ASCII blanks,
+optional sign, digits with an optional `.`; no exponents, no `_`, no `nan`. -/
+
+/-- value of a list of decimal digits, most significant first -/
+def digitsVal (ds : List Nat) : Nat := ds.foldl (fun a d => 10 * a + d) 0
+
+inductive CliErr
+  | value          -- ValueError (float()/int() of a malformed literal)
+  | zeroDivision   -- ZeroDivisionError
+  | index          -- IndexError
+  | unpack         -- ValueError: too many values to unpack (splitting read-back)
+deriving DecidableEq, Repr
+
+/-- Python `str.split(sep)` for a one-character separator -/
+def splitOnChar (sep : Char) : List Char → List (List Char)
+  | [] => [[]]
+  | c :: cs =>
+    match splitOnChar sep cs with
+    | [] => [[]]            -- unreachable
+    | w :: ws => if c = sep then [] :: w :: ws else (c :: w) :: ws
+
+def isBlank (c : Char) : Bool := c = ' ' || c = '\t' || c = '\n' || c = '\r'
+
+/-- Python `str.strip()` (ASCII blanks) -/
+def strip (s : List Char) : List Char :=
+  ((s.dropWhile isBlank).reverse.dropWhile isBlank).reverse
+
+def isDigit (c : Char) : Bool := '0' ≤ c && c ≤ '9'
+
+/-- a parsed decimal literal `[sign] int [. frac]` -/
+structure DecLit where
+  neg : Bool
+  hasSign : Bool
+  intDigits : List Nat
+  hasDot : Bool
+  fracDigits : List Nat
+deriving DecidableEq, Repr
+
+def parseDecLit (s0 : List Char) : Option DecLit :=
+  let s := strip s0
+  let (neg, hasSign, body) := match s with
+    | '-' :: r => (true, true, r)
+    | '+' :: r => (false, true, r)
+    | r => (false, false, r)
+  let ip := body.takeWhile isDigit
+  let rest := body.dropWhile isDigit
+  match rest with
+  | [] => if ip.isEmpty then none else
+      some ⟨neg, hasSign, ip.map charDigit, false, []⟩
+  | '.' :: fr =>
+      if fr.all isDigit && !(ip.isEmpty && fr.isEmpty) then
+        some ⟨neg, hasSign, ip.map charDigit, true, fr.map charDigit⟩
+      else none
+  | _ => none
+
+/-- exact value of a literal -/
+def DecLit.toRat (d : DecLit) : Rat :=
+  let m : Rat := ((digitsVal (d.intDigits ++ d.fracDigits) : Nat) : Rat) / ((10 ^ d.fracDigits.length : Nat) : Rat)
+  if d.neg then -m else m
+
+/-- `float(s)` -/
+def parseFloat (s : List Char) : Except CliErr Rat :=
+  match parseDecLit s with
+  | none => .error .value
+  | some d => .ok d.toRat
+
+/-- `int(s)` for a literal without `.` -/
+def parseInt (s : List Char) : Except CliErr Int :=
+  match parseDecLit s with
+  | some d => if d.hasDot then .error .value
+              else .ok (if d.neg then -(digitsVal d.intDigits : Int) else (digitsVal d.intDigits : Int))
+  | none => .error .value
+
+/-! ### `read_range_input` -/
+
+/-- the relative tolerance `1e-9` added to the stop value -/
+def eps : Rat := 1 / 1000000000
+
+/-- `np.arange(start, stop, step)` over exact numbers: `ceil((stop-start)/step)` elements
+    `start + i*step` (none when that is ≤ 0) -/
+def arange (start stop step : Rat) : List Rat :=
+  (List.range ((stop - start) / step).ceil.toNat).map fun (i : Nat) => start + (i : Rat) * step
+
+/-- `np.minimum(np.arange(min, max + 1e-9*step, step), max)` -/
+def rangeValues (mn mx step : Rat) : List Rat :=
+  (arange mn (mx + eps * step) step).map fun v => min v mx
+
+def defaultStep : Rat := 1 / 200   -- 0.005
+
+def readRange (spec : List Char) : Except CliErr (List Rat) :=
+  if spec.contains ':' then
+    let parts := splitOnChar ':' spec
+    match parts with
+    | p0 :: p1 :: tl => do
+      let mn ← parseFloat p0
+      let mx ← parseFloat p1
+      let step ← match tl with
+        | [p2] => parseFloat p2
+        | _ => pure defaultStep        -- two parts, or more than three: the default step
+      if step = 0 then .error .zeroDivision
+      else pure (rangeValues mn mx step)
+    | _ => .error .index                -- unreachable: a ':' gives at least two parts
+  else if spec.contains ',' then
+    (splitOnChar ',' spec).mapM parseFloat
+  else do
+    let v ← parseFloat spec
+    pure [v]
+
+/-! ### `read_bias_ratios`, `get_direction_from_bias_ratio` -/
+
+/-- a bias ratio as `read_bias_ratios` returns it: `np.inf`, a Python `int`, or a non-integral
+    `float` kept in normal form (integer part, fractional digits without trailing zeros) -/
+inductive Eta
+  | inf
+  | int (v : Int)
+  | flt (neg : Bool) (ip : Nat) (fd : List Nat)
+deriving DecidableEq, Repr
+
+def stripTrailingZeros (ds : List Nat) : List Nat :=
+  (ds.reverse.dropWhile (· == 0)).reverse
+
+def parseEta (tok : List Char) : Except CliErr Eta :=
+  let s := strip tok
+  if s = ['i', 'n', 'f'] then .ok .inf
+  else match parseDecLit s with
+    | none => .error .value                    -- float(s) raises
+    | some d =>
+      let fd := stripTrailingZeros d.fracDigits
+      if fd.isEmpty then
+        -- float(s) % 1 == 0: int(s), which rejects a literal with a '.'
+        if d.hasDot then .error .value
+        else .ok (.int (if d.neg then -(digitsVal d.intDigits : Int) else (digitsVal d.intDigits : Int)))
+      else .ok (.flt d.neg (digitsVal d.intDigits) fd)
+
+def readBiasRatios (s : List Char) : Except CliErr (List Eta) :=
+  (splitOnChar ',' s).mapM parseEta
+
+/-- numeric value of a finite bias ratio -/
+def Eta.toRat? : Eta → Option Rat
+  | .inf => none
+  | .int v => some (v : Rat)
+  | .flt neg ip fd =>
+    let m : Rat := (ip : Rat) + ((digitsVal fd : Nat) : Rat) / ((10 ^ fd.length : Nat) : Rat)
+    some (if neg then -m else m)
+
+/-- `str(eta)` as it appears in the file name (floats: positional `repr`, valid for
+    `1e-4 ≤ |x| < 1e16` with at most 15 significant digits) -/
+def Eta.str : Eta → List Char
+  | .inf => ['i', 'n', 'f']
+  | .int v => if v < 0 then '-' :: natStr v.natAbs else natStr v.natAbs
+  | .flt neg ip fd =>
+    (if neg then ['-'] else []) ++ natStr ip ++ '.' :: fd.map digitChar
+
+structure Direction where
+  rx : Rat
+  ry : Rat
+  rz : Rat
+deriving DecidableEq, Repr
+
+/-- `get_direction_from_bias_ratio(pauli, eta)`; `none` = the empty dict returned for a
+    letter other than X, Y, Z (click only admits these three) -/
+def getDirection (pauli : Char) (eta : Eta) : Except CliErr (Option Direction) :=
+  let rb : Except CliErr Rat := match eta.toRat? with
+    | none => .ok 1
+    | some e => if 1 + e = 0 then .error .zeroDivision else .ok (e / (1 + e))
+  match rb with
+  | .error e => .error e
+  | .ok rBias =>
+    let rOther := (1 - rBias) / 2
+    if pauli = 'Z' then .ok (some ⟨rOther, rOther, rBias⟩)
+    else if pauli = 'X' then .ok (some ⟨rBias, rOther, rOther⟩)
+    else if pauli = 'Y' then .ok (some ⟨rOther, rBias, rOther⟩)
+    else .ok none
+
+/-! ### `generate_input` -/
+
+structure GenArgs where
+  sizes : List Char
+  decoderClass : List Char
+  bias : Char
+  eta : List Char
+  prob : List Char
+  codeClass : Option (List Char)
+  noiseClass : List Char
+  deformationName : Option (List Char)
+  method : List Char
+  label : Option (List Char)
+
+/-- the `ranges` dictionary written to one file -/
+structure InputSpec where
+  label : List Char
+  methodName : List Char
+  methodParams : List (List Char × Nat)
+  codeName : Option (List Char)
+  codeParams : List (Int × Int × Int)          -- (L_x, L_y, L_z)
+  noiseName : List Char
+  direction : Option Direction
+  deformationName : Option (List Char)
+  decoderName : List Char
+  decoderParams : List (List Char × Nat)
+  errorRates : List Rat
+deriving DecidableEq, Repr
+
+/-- one entry of `--sizes`: `L_x = int(L[0])`, `L_y = int(L[1]) if len(L) >= 2 else int(L[0])`,
+    `L_z = int(L[2]) if len(L) == 3 else int(L[0])` -/
+def parseSize (s : List Char) : Except CliErr (Int × Int × Int) :=
+  let L := splitOnChar 'x' s
+  match L with
+  | [] => .error .index
+  | l0 :: tl => do
+    let lx ← parseInt l0
+    let ly ← match tl with
+      | l1 :: _ => parseInt l1
+      | [] => parseInt l0
+    let lz ← match tl with
+      | [_, l2] => parseInt l2
+      | _ => parseInt l0
+    pure (lx, ly, lz)
+
+def parseSizes (s : List Char) : Except CliErr (List (Int × Int × Int)) :=
+  (splitOnChar ',' s).mapM parseSize
+
+def bpOsdName : List Char := "BeliefPropagationOSDDecoder".toList
+
+def fileName (label : List Char) (nRatios : Nat) (eta : Eta) : List Char :=
+  if nRatios > 1 then label ++ "_eta-".toList ++ eta.str ++ ".json".toList
+  else label ++ ".json".toList
+
+/-- the specification written for one bias ratio -/
+def specFor (a : GenArgs) (rates : List Rat) (eta : Eta) : Except CliErr InputSpec := do
+  let dir ← getDirection a.bias eta
+  let sizes ← parseSizes a.sizes
+  pure {
+    label := a.label.getD "experiment".toList
+    methodName := a.method
+    methodParams := if a.method = "splitting".toList then [("n_init_runs".toList, 20000)] else []
+    codeName := a.codeClass
+    codeParams := sizes
+    noiseName := a.noiseClass
+    direction := dir
+    deformationName := a.deformationName
+    decoderName := a.decoderClass
+    decoderParams := if a.decoderClass = bpOsdName
+      then [("max_bp_iter".toList, 1000), ("osd_order".toList, 100)] else []
+    errorRates := rates }
+
+/-- the loop over bias ratios: files written so far, and the error that stopped the loop -/
+def writeAll (a : GenArgs) (rates : List Rat) (n : Nat) :
+    List Eta → List (List Char × InputSpec) × Option CliErr
+  | [] => ([], none)
+  | eta :: rest =>
+    match specFor a rates eta with
+    | .error e => ([], some e)
+    | .ok spec =>
+      let (ws, err) := writeAll a rates n rest
+      ((fileName spec.label n eta, spec) :: ws, err)
+
+/-- `generate_input`: the sequence of `(file name, ranges)` writes, in order, and the
+    exception (if any) that ended the command -/
+def generateInput (a : GenArgs) : List (List Char × InputSpec) × Option CliErr :=
+  match readRange a.prob with
+  | .error e => ([], some e)
+  | .ok rates =>
+    match readBiasRatios a.eta with
+    | .error e => ([], some e)
+    | .ok etas => writeAll a rates etas.length etas
+
+/-- directory content after a sequence of writes (a later write to the same name replaces the
+    earlier file) -/
+def finalFiles : List (List Char × InputSpec) → List (List Char × InputSpec)
+  | [] => []
+  | (n, s) :: rest =>
+    if rest.any (fun p => p.1 == n) then finalFiles rest else (n, s) :: finalFiles rest
+
+/-! ### read-back: `_parse_all_ranges` + `get_simulations` on a generated file -/
+
+/-- `_parse_parameters_range` on a list: an empty list becomes the one-element list `[{}]`
+    (`none` here) -/
+def parametersRange {α : Type} (l : List α) : List (Option α) :=
+  if l.isEmpty then [none] else l.map some
+
+/-- one simulation of the batch: code parameters (`none` = `{}`) and error rate -/
+abbrev SimKey := Option (Int × Int × Int) × Option Rat
+
+/-- `itertools.product(codes, error_models, decoder_range, error_rates)` for a generated file
+    (one error model and one decoder entry, since their `parameters` are dicts) -/
+def productCodesRates (codes : List (Option (Int × Int × Int))) (rates : List (Option Rat)) :
+    List SimKey :=
+  codes.flatMap fun c => rates.map fun r => (c, r)
+
+/-- `get_simulations(data)` for the file content `spec`: the list of `DirectSimulation`s in
+    order.  Method `splitting` unpacks the 4-tuples of the product into 3 names and raises. -/
+def expand (spec : InputSpec) : Except CliErr (List SimKey) :=
+  let inst := productCodesRates (parametersRange spec.codeParams) (parametersRange spec.errorRates)
+  if spec.methodName = "direct".toList then .ok inst
+  else if spec.methodName = "splitting".toList then
+    (if inst.isEmpty then .ok [] else .error .unpack)
+  else .ok []
+
 end Panqec.Cli
